@@ -527,6 +527,32 @@ def date_ok(value, t0, t1):
     return t0 - 2 <= ts <= t1 + 2 and value.endswith("GMT")
 
 
+def concurrent_aborts(connect, request_of, k=12, gap=0.018):
+    """k clients are connected and have sent their requests at the same time - the messages of all of them are queued at the (slowed)
+    actors, each request waiting behind the others' - and then hang up one after the other: replies of every kind come due for
+    requests that no longer exist"""
+    conns = []
+    try:
+        # first batch: hang up late, in the order of arrival (the requests are at their later messages by then); second batch: hang
+        # up early, last arrival first (the first message of each is still queued behind those of the earlier arrivals)
+        for batch, (order, g) in enumerate(((1, gap), (-1, 0.003))):
+            for j in range(k):
+                c = connect()
+                c.send(request_of(batch * k + j))
+                conns.append(c)
+            for c in conns[::order]:
+                time.sleep(g)
+                c.close(rst=True)
+            conns = []
+            time.sleep(0.05)
+    finally:
+        for c in conns:
+            try:
+                c.close(rst=True)
+            except OSError:
+                pass
+
+
 def abort_storm(stack, callers, n=40, slow_us=4000, dest=None):
     """clients that send a request and hang up at once while every actor is slow (H3 inject point): the request futures are dropped
     while their actor messages are still queued. Returns the response of a request made afterwards on a new connection."""
@@ -539,6 +565,8 @@ def abort_storm(stack, callers, n=40, slow_us=4000, dest=None):
         for i in range(n):
             if i % max(1, n // len(phases)) == 0:
                 stack.ctl(phases[min(len(phases) - 1, i // max(1, n // len(phases)))])
+                concurrent_aborts(lambda: stack.connect(audit=(0, c["pid"], 1, dest[0], dest[1])),
+                                  lambda j: e2e.build_request("GET", "/metadata/instance?abort=%d-%d" % (i, j), [(b"Host", b"h")]))
             conn = stack.connect(audit=(0, c["pid"], 1, dest[0], dest[1]))
             try:
                 conn.send(e2e.build_request("GET", "/metadata/instance?abort=%d" % i, [(b"Host", b"h")]))
